@@ -160,6 +160,18 @@ Definition defs_okbB (defs : list fdef) (rq : list nat) : bool :=
   && nodupb rq && subset rq names
   && forallb (fun d => forallb (fun e => negb (Nat.eqb (dgrp d) (dgrp e)) || Nat.eqb (dcfw d) (dcfw e)) defs) defs.
 
+(* ---------- where add_tfs has no choice to make (decidable on graph + oracle) ---------- *)
+(* all features of a step have the same ancestors: it does not matter which of them is any_uuid *)
+Definition step_uniform (cl : amap) (s : step) : bool :=
+  forallb (fun f => set_eqb (aget0 f cl) (aget0 (hd 0 (uuids s)) cl)) (uuids s).
+(* the keys (from, to, from group, to group) of all TransformFrameworkStep objects the planner constructs, in order *)
+Definition demand_keys (ord : oparam) (g : fgraph) : list tkey :=
+  flat_map (fun s => map (key_of g (hd 0 (uuids s))) (tfs_demands ord g (p2c_of g) (hd 0 (uuids s)))) (raw_plan ord g).
+Fixpoint knodup (l : list tkey) : bool := match l with [] => true | k :: t => negb (kmem k t) && knodup t end.
+(* no two constructed steps are equal for TransformFrameworkStep.__eq__: nothing is dropped *)
+Definition kf_tfs_choice (ord : oparam) (g : fgraph) : bool :=
+  negb (forallb (step_uniform (p2c_of g)) (raw_plan ord g) && knodup (demand_keys ord g)).
+
 (* ---------- the order oracle reconstructed from one observed preparation ---------- *)
 (* remove the first occurrence *)
 Fixpoint remove1 (a : nat) (l : list nat) : list nat :=
